@@ -20,7 +20,7 @@ import vlib  # noqa: E402
 
 
 def part_a(rep, cov, tier):
-    cfgs = ["A4", "B4", "C4", "D4"] if tier == "quick" else ["A5", "B6", "C5", "D5"]
+    cfgs = ["A4", "B4", "C4", "D4", "E5c"] if tier == "quick" else ["A5", "B6", "C5", "D5", "E6c"]
     per = max(2, vlib.NCPU // len(cfgs))
     with ThreadPoolExecutor(max_workers=len(cfgs)) as ex:
         runs = list(ex.map(lambda c: vlib.tlc_check("Lexer.tla", "MC_Lexer_%s.cfg" % c, workers=per,
